@@ -197,13 +197,14 @@ func runC17(c *Ctx) {
 		"WriteString(prettyStringInteral(&v.Array[i@v.Array].Value, append(rootValues, [v][:]), true, true))": {"i@v.Array < len(v.Array)"},
 		"WriteByte(93)":       {"i@v.Array >= len(v.Array)"},
 		"WriteByte(123)":      {"v.Tag == ValueObj"},
-		`WriteString(", ")#o`: {"φint0 > 0", "v.Tag == ValueObj"},
+		`WriteString(", ")#o`: {"φint0 > 0 || i@lang.sortedKeys(*v.Obj) > 0", "v.Tag == ValueObj"},
 		`WriteString((("\"" + lang.sortedKeys(*v.Obj)[i@lang.sortedKeys(*v.Obj)]) + "\""))`: {"v.Tag == ValueObj"},
 		`WriteString(": ")`: {"v.Tag == ValueObj"},
 		"WriteString(prettyStringInteral(&*v.Obj[lang.sortedKeys(*v.Obj)[i@lang.sortedKeys(*v.Obj)]].Value, append(rootValues, [v][:]), true, true))": {"v.Tag == ValueObj"},
 		"WriteByte(125)": {"i@lang.sortedKeys(*v.Obj) >= len(lang.sortedKeys(*v.Obj))"},
 	}
 	seenW := map[string]bool{}
+	usesRangeIndex := false
 	r := &renderer{p: p, noExpand: true, depth: 2}
 	for _, call := range callsIn(pr) {
 		f := call.Common().StaticCallee()
@@ -231,7 +232,17 @@ func runC17(c *Ctx) {
 		seenW[key] = true
 		var lacking []string
 		for _, x := range req {
-			if !g[x] {
+			// alternatives: a count of the members written so far, or the index of the ranged key list
+			any := false
+			for _, alt := range strings.Split(x, " || ") {
+				if g[alt] {
+					any = true
+					if alt == "i@lang.sortedKeys(*v.Obj) > 0" {
+						usesRangeIndex = true
+					}
+				}
+			}
+			if !any {
 				lacking = append(lacking, x)
 			}
 		}
@@ -251,7 +262,7 @@ func runC17(c *Ctx) {
 			}
 		}
 	})
-	c.check(idxOK, "R3", "member-counter", p.Pos(pr.Pos()), "the object separator counter starts at 0 and grows by one per member", "the counter deciding the object separator is not `0, +1 per member`")
+	c.check(idxOK || usesRangeIndex, "R3", "member-counter", p.Pos(pr.Pos()), "the object separator counter starts at 0 and grows by one per member", "the counter deciding the object separator is not `0, +1 per member`")
 	// the cycle verdict text
 	for _, rc := range p.successResults(pr) {
 		if strings.Contains(rc.Value, "circular") {
